@@ -94,8 +94,11 @@ func (dec *tomlDecoder) decodeKeyValuesIntoMap(rootMap *CandidateNode, tomlNode 
 }
 
 func (dec *tomlDecoder) createInlineTableMap(tomlNode *toml.Node) (*CandidateNode, error) {
-	content := make([]*CandidateNode, 0)
-	log.Debug("createInlineTableMap")
+	// every key/value goes into the same map: dotted keys of one inline table may share a prefix ({ y.z = 2, y.w = 3 })
+	inlineTable := &CandidateNode{
+		Kind: MappingNode,
+		Tag:  "!!map",
+	}
 
 	iterator := tomlNode.Children()
 	for iterator.Next() {
@@ -104,23 +107,12 @@ func (dec *tomlDecoder) createInlineTableMap(tomlNode *toml.Node) (*CandidateNod
 			return nil, fmt.Errorf("only keyvalue pairs are supported in inlinetables, got %v instead", child.Kind)
 		}
 
-		keyValues := &CandidateNode{
-			Kind: MappingNode,
-			Tag:  "!!map",
-		}
-
-		if err := dec.processKeyValueIntoMap(keyValues, child); err != nil {
+		if err := dec.processKeyValueIntoMap(inlineTable, child); err != nil {
 			return nil, err
 		}
-
-		content = append(content, keyValues.Content...)
 	}
 
-	return &CandidateNode{
-		Kind:    MappingNode,
-		Tag:     "!!map",
-		Content: content,
-	}, nil
+	return inlineTable, nil
 }
 
 func (dec *tomlDecoder) createArray(tomlNode *toml.Node) (*CandidateNode, error) {
